@@ -90,6 +90,7 @@ func c20procError(i int) error {
 }
 
 type c20script struct {
+	same bool // every frame has the same bytes and an equal capture info (a keep-alive repeated on the wire, a capture clock with coarse resolution): still one frame each
 	syms     string
 	cancelAt int // reader call index at which the context is cancelled (-1: never)
 	slow     bool
@@ -102,6 +103,7 @@ type c20reader struct {
 	frames  [][]byte
 	ciIdx   map[*gopacket.CaptureInfo]int
 	empty   int
+	identical int
 	sameText int
 	cis     []*gopacket.CaptureInfo
 	unknown []error
@@ -199,6 +201,11 @@ func c20run(run *vlab.Run, sc c20script) {
 				rd.empty++
 			}
 			rd.cis[i] = &gopacket.CaptureInfo{Length: i, CaptureLength: len(rd.frames[i])}
+			if sc.same {
+				rd.frames[i] = []byte{0xde, 0xad, 0xbe, 0xef}
+				rd.cis[i] = &gopacket.CaptureInfo{Timestamp: time.Unix(1700000000, 0), Length: 4, CaptureLength: 4}
+				rd.identical++
+			}
 			rd.ciIdx[rd.cis[i]] = i
 			pr.procErr[i] = c20procError(i)
 		case c20U:
@@ -217,7 +224,7 @@ func c20run(run *vlab.Run, sc c20script) {
 		if len(s) > 120 {
 			s = s[:120] + fmt.Sprintf("…(%d)", len(sc.syms))
 		}
-		return fmt.Sprintf("script=%q cancel_at_read=%d slow_consumer=%v", s, sc.cancelAt, sc.slow)
+		return fmt.Sprintf("script=%q cancel_at_read=%d slow_consumer=%v identical_frames=%v", s, sc.cancelAt, sc.slow, sc.same)
 	}
 	var got []error
 	closed := false
@@ -369,6 +376,7 @@ func c20run(run *vlab.Run, sc c20script) {
 	run.Count("reads", int64(calls))
 	run.Count("frames_processed", int64(len(pr.seen)))
 	run.Count("empty_frames_scripted", int64(rd.empty))
+	run.Count("identical_frames_scripted", int64(rd.identical))
 	run.Count("unknown_errors_with_identical_text", int64(rd.sameText))
 	run.Count("errors_reported", int64(len(got)))
 	if sc.cancelAt >= 0 {
@@ -415,6 +423,10 @@ func TestVerifC20(t *testing.T) {
 	// ---- long random sequences with bursts of unknown/processing errors > 100 (the error channel's buffer)
 	rng := run.Rand("long")
 	quietRuns := 0
+	// identical frames (same bytes, equal capture info), back to back and with faults between them
+	for _, sy := range []string{"FF", "FFF", "FAF", "FTFRF", "FEFE", "EE", "FUFX", "FFFFFFFFFFX", "FMFNFOF", "EAEUE"} {
+		scripts = append(scripts, c20script{syms: sy, cancelAt: -1, same: true})
+	}
 	// two fixed ones so that every run has them
 	scripts = append(scripts, c20script{syms: "F" + strings.Repeat("A", 150) + "FEF" + strings.Repeat("T", 101) + "FX", cancelAt: -1})
 	scripts = append(scripts, c20script{syms: strings.Repeat("AROTMN", 40) + "FUFX", cancelAt: -1})
